@@ -156,7 +156,11 @@ static void judge(const kctx_t *kc, const uint8_t *pkt, size_t plen, const uint8
         memcpy(out, pkt, plen);
         cbuf = out;
     } else {
-        out = gb_place(&gM2, blen, PL_END, 0, 0, junk);
+        /* short outputs rotate over end-guard / start-guard / every alignment offset: a wipe that works in words
+         * must also cope with a buffer that ends before the next word boundary */
+        int pl = blen <= 24 ? (int)(junk % 3) : PL_END;
+        out = gb_place(&gM2, blen, pl, (unsigned)(junk >> 2), 0, junk);
+        ASAN_UNPOISON(out, blen);
         cbuf = gb_place(&gC2, plen, PL_END, 0, 0, 0);
         memcpy(cbuf, pkt, plen);
         gb_readonly(&gC2);
@@ -535,6 +539,102 @@ static void battery_pairs(const kctx_t *kc, const uint8_t *m, size_t mlen, rng_t
     }
 }
 
+
+/* ------------------------------------------------------------------ lengths >= 2^32 (thorough only) */
+
+static uint8_t *huge_map(size_t n)
+{
+    uint8_t *p = (uint8_t *)mmap(NULL, n, PROT_READ | PROT_WRITE, MAP_PRIVATE | MAP_ANONYMOUS | MAP_NORESERVE, -1, 0);
+    if (p == MAP_FAILED) { perror("mmap huge"); exit(2); }
+    return p;
+}
+static void huge_fill(uint8_t *p, size_t n, uint64_t seed)
+{
+    size_t i;
+    uint64_t s = seed;
+    for (i = 0; i + 8 <= n; i += 8) { uint64_t v = s += 0x9E3779B97F4A7C15ULL; v ^= v >> 29; memcpy(p + i, &v, 8); }
+    for (; i < n; ++i) p[i] = (uint8_t)(i * 131 + seed);
+}
+
+/* AD of 2^32 + 7 bytes: no model can be afforded, but a length that is truncated modulo 2^32 (or any narrower
+ * counter) makes the packet equal to the one for the truncated length, and makes bytes beyond the truncated length
+ * irrelevant.  Both are checked; neither can happen for a conforming implementation except with probability 2^-64. */
+static void huge_ad_case(const args_t *a, long idx, const variant_t *v)
+{
+    size_t adlen = ((size_t)1 << 32) + 7, mlen = 5, clen = 0;
+    uint8_t *ad = huge_map(adlen + 16), k[32], n[12], m[8], c0[16], c1[16], c2[16], c3[16];
+    rng_t r = rng_for(a->seed, 0x4061, (uint64_t)idx);
+    char key[96];
+    static const size_t TRUNC[] = {7, 65536 + 7, ((size_t)1 << 31) + 7};
+    int t;
+    set_case("{\"h\":\"aead\",\"mode\":\"huge-ad\",\"v\":\"%s\",\"i\":%ld,\"adlen\":%zu,\"mlen\":%zu}", v->name, idx, adlen, mlen);
+    ++n_cases; ++n_long;
+    cls_add(mix64(0x4061, (uint64_t)(v - VARS)));
+    emit_sample();
+    fill_random(&r, k, 32); fill_random(&r, n, 12); fill_random(&r, m, 8);
+    huge_fill(ad, adlen, a->seed + (uint64_t)idx);
+    v->enc(c0, &clen, m, mlen, ad, adlen, n, k); ++n_enc;
+    if (clen != mlen + 8) { snprintf(key, sizeof key, "clen-wrong:%s", v->name); emit_viol(key, "*clen=%zu with adlen=2^32+7", clen); }
+    for (t = 0; t < 3; ++t) {
+        /* same prefix, shorter declared length */
+        v->enc(c1, &clen, m, mlen, ad, TRUNC[t], n, k); ++n_enc;
+        if (!memcmp(c0, c1, mlen + 8)) {
+            snprintf(key, sizeof key, "length-truncated:%s:adlen", v->name);
+            emit_viol(key, "packet for adlen=2^32+7 equals the packet for adlen=%zu with the same leading bytes: the AD length is truncated", TRUNC[t]);
+        }
+    }
+    ad[adlen - 3] ^= 0x40;                       /* a byte in the final partial word, beyond 2^32 */
+    v->enc(c2, &clen, m, mlen, ad, adlen, n, k); ++n_enc;
+    ad[adlen - 3] ^= 0x40;
+    ad[((size_t)1 << 32) - 100] ^= 0x01;         /* a byte just below 2^32 */
+    v->enc(c3, &clen, m, mlen, ad, adlen, n, k); ++n_enc;
+    if (!memcmp(c0, c2, mlen + 8) || !memcmp(c0, c3, mlen + 8)) {
+        snprintf(key, sizeof key, "ad-bytes-ignored:%s", v->name);
+        emit_viol(key, "changing AD byte %s of a 2^32+7 byte AD does not change the packet", !memcmp(c0, c2, mlen + 8) ? "2^32+4" : "2^32-100");
+    }
+    /* and the library's own decrypt accepts its packet with the full AD */
+    ad[((size_t)1 << 32) - 100] ^= 0x01;
+    { uint8_t mo[8]; size_t ml = 0; int rc = v->dec(mo, &ml, c0, mlen + 8, ad, adlen, n, k); ++n_dec;
+      if (rc != 0 || ml != mlen || memcmp(mo, m, mlen)) { snprintf(key, sizeof key, "roundtrip-rejected:%s:huge-ad", v->name); emit_viol(key, "decrypt with the 2^32+7 byte AD returned %d", rc); } }
+    munmap(ad, adlen + 16);
+}
+
+/* message of 2^32 + 5 bytes, encrypted and decrypted in place: exact round-trip oracle */
+static void huge_msg_case(const args_t *a, long idx, const variant_t *v)
+{
+    size_t mlen = ((size_t)1 << 32) + 5, clen = 0, ml2 = 0, i, bad = 0;
+    uint8_t *buf = huge_map(mlen + 64), k[32], n[12], ad[8], probe[64];
+    rng_t r = rng_for(a->seed, 0x4062, (uint64_t)idx);
+    char key[96];
+    int rc;
+    set_case("{\"h\":\"aead\",\"mode\":\"huge-message\",\"v\":\"%s\",\"i\":%ld,\"adlen\":3,\"mlen\":%zu,\"alias\":\"in place\"}", v->name, idx, mlen);
+    ++n_cases; ++n_long; ++n_inplace;
+    cls_add(mix64(0x4062, (uint64_t)(v - VARS)));
+    emit_sample();
+    fill_random(&r, k, 32); fill_random(&r, n, 12); fill_random(&r, ad, 8);
+    huge_fill(buf, mlen, a->seed * 7 + (uint64_t)idx);
+    memcpy(probe, buf + mlen - 40, 40);
+    memset(buf + mlen, 0xAB, 64);
+    v->enc(buf, &clen, buf, mlen, ad, 3, n, k); ++n_enc;
+    if (clen != mlen + 8) { snprintf(key, sizeof key, "clen-wrong:%s", v->name); emit_viol(key, "*clen=%zu for mlen=2^32+5", clen); }
+    for (i = 8; i < 64; ++i) if (buf[mlen + i] != 0xAB) { snprintf(key, sizeof key, "encrypt-wrote-outside:%s", v->name); emit_viol(key, "byte %zu after the packet was modified", i); break; }
+    if (!memcmp(probe, buf + mlen - 40, 40)) { snprintf(key, sizeof key, "length-truncated:%s:mlen", v->name); emit_viol(key, "the last 40 bytes of a 2^32+5 byte message were not encrypted"); }
+    rc = v->dec(buf, &ml2, buf, mlen + 8, ad, 3, n, k); ++n_dec;
+    if (rc != 0 || ml2 != mlen) { snprintf(key, sizeof key, "roundtrip-rejected:%s:huge-message", v->name); emit_viol(key, "decrypt(encrypt(m)) returned %d, *mlen=%zu for mlen=2^32+5", rc, ml2); }
+    else {
+        /* compare with a regenerated copy of the plaintext, chunk by chunk */
+        uint8_t *ref = huge_map(1 << 20);
+        uint64_t sd = a->seed * 7 + (uint64_t)idx;
+        (void)ref;
+        { size_t j; uint64_t s = sd; for (j = 0; j + 8 <= mlen; j += 8) { uint64_t v2 = s += 0x9E3779B97F4A7C15ULL, w; v2 ^= v2 >> 29; memcpy(&w, buf + j, 8); if (w != v2) { ++bad; if (bad == 1) i = j; } }
+          for (; j < mlen; ++j) if (buf[j] != (uint8_t)(j * 131 + sd)) { ++bad; if (bad == 1) i = j; } }
+        munmap(ref, 1 << 20);
+        n_bytes_cmp += mlen;
+        if (bad) { snprintf(key, sizeof key, "roundtrip-plaintext:%s:huge-message", v->name); emit_viol(key, "%zu words of the recovered 2^32+5 byte plaintext differ, first near offset %zu", bad, i); }
+    }
+    munmap(buf, mlen + 64);
+}
+
 /* ------------------------------------------------------------------ one case */
 
 static void run_case(const args_t *a, long idx, const variant_t *v, size_t adlen, size_t mlen, int rep, int is_long)
@@ -755,6 +855,14 @@ int main(int argc, char **argv)
     gb_init(&gC, "c", 1 << 16); gb_init(&gM, "m", 1 << 16); gb_init(&gAD, "ad", 1 << 12); gb_init(&gK, "key", 64);
     gb_init(&gN, "npub", 64); gb_init(&gM2, "m-out", 1 << 16); gb_init(&gC2, "c-in", 1 << 16);
 
+    if (strstr(a.mode, "hugead")) {
+        for (vi = 0; vi < 6; ++vi, ++idx) if (mine(&a, idx)) huge_ad_case(&a, idx, &VARS[vi]);
+        NL = 0; W = -1;
+    }
+    if (strstr(a.mode, "hugemsg")) {
+        for (vi = 0; vi < 3; ++vi, ++idx) if (mine(&a, idx)) huge_msg_case(&a, idx, &VARS[vi]);
+        NL = 0; W = -1;
+    }
     if (strstr(a.mode, "sweep")) {
         /* dense length sweep: every mlen in 0..p3 for every variant, adlen rotating over 0..4 */
         for (vi = v0; vi < v0 + nv; ++vi)
@@ -767,7 +875,16 @@ int main(int argc, char **argv)
             for (ml = 0; ml <= W; ++ml)
                 for (rep = 0; rep < R; ++rep, ++idx)
                     if (mine(&a, idx)) run_case(&a, idx, &VARS[vi], (size_t)ad, (size_t)ml, (int)rep, 0);
-    /* long cases: random lengths above the window, then the megabyte ones */
+    /* long cases: fixed lengths that cross 16-bit and 18-bit word/byte counters for EVERY variant, then random ones */
+    {
+        static const size_t FIXED[] = {65535, 65536, 65537, 65539, 131072 + 2, 262144, 262144 + 5, (1u << 20) + 1};
+        long nfixed = (long)(sizeof FIXED / sizeof FIXED[0]) * nv;
+        if (NL > 0 && !F_TAMPER)
+            for (rep = 0; rep < nfixed; ++rep, ++idx) {
+                if (!mine(&a, idx)) continue;
+                run_case(&a, idx, &VARS[v0 + rep % nv], (size_t)(rep % 7), FIXED[rep / nv], (int)rep, 1);
+            }
+    }
     for (rep = 0; rep < NL; ++rep, ++idx) {
         rng_t r = rng_for(a.seed, 0x1046, (uint64_t)rep);
         size_t mlen, adlen;
@@ -775,6 +892,7 @@ int main(int argc, char **argv)
         if (rep < 6 && a.thorough) { mlen = ((size_t)1 << 20) + (size_t)rep % 4; adlen = rnd(&r, 40); }
         else if (rep >= 6 && rep < 9 && a.thorough && F_ZERO) { mlen = ((size_t)16 << 20) + (size_t)(rep % 4); adlen = 5; }
         else { mlen = (size_t)W + 1 + rnd(&r, rep % 3 ? 700 : 70000); adlen = rnd(&r, rep % 2 ? 40 : 3000); }
+        if (rep % 5 == 4) { size_t t = mlen; mlen = adlen % 50; adlen = t; }      /* long AD, short message */
         run_case(&a, idx, &VARS[v0 + rep % nv], adlen, mlen, (int)rep, 1);
     }
     if (F_TAMPER && a.batch == 0) { rng_t r = rng_for(a.seed, 0xC7, 0); set_case("{\"h\":\"aead\",\"mode\":\"check_tag-direct\"}"); battery_checktag(&r); }
